@@ -636,10 +636,10 @@ package tacquito
 //@   ensures wfSessions(s)
 //@   ensures[C07,C08] err == nil ==> h.SeqNo mod 2 == 1
 //@   ensures[C07,C08] (err == nil && old(has(s.known, h.SessionID))) ==> h.SeqNo > old(s.known[h.SessionID].header.SeqNo)
-//@   ensures[C07,C08,C09] (err == nil && old(has(s.known, h.SessionID))) ==> res == old(s.known[h.SessionID].Handler)
-//@   ensures[C07,C08,C09] (err == nil && !old(has(s.known, h.SessionID))) ==> res == nil
-//@   ensures[C07,C08,C09] sameExcept(s.known, h.SessionID)
-//@   ensures[C07,C08,C09] err == nil ==> has(s.known, h.SessionID) == old(has(s.known, h.SessionID)) && len(s.known) == old(len(s.known))
+//@   ensures[C07,C08,C09,C20] (err == nil && old(has(s.known, h.SessionID))) ==> res == old(s.known[h.SessionID].Handler)
+//@   ensures[C07,C08,C09,C20] (err == nil && !old(has(s.known, h.SessionID))) ==> res == nil
+//@   ensures[C07,C08,C09,C20] sameExcept(s.known, h.SessionID)
+//@   ensures[C07,C08,C09,C20] err == nil ==> has(s.known, h.SessionID) == old(has(s.known, h.SessionID)) && len(s.known) == old(len(s.known))
 //@   ensures[C20] ghost.gauge[sessionsActive] - len(s.known) == old(ghost.gauge[sessionsActive] - len(s.known))
 //@   ensures[C20] ghost.gauge == upd(old(ghost.gauge), sessionsActive, ghost.gauge[sessionsActive])
 
@@ -647,8 +647,8 @@ package tacquito
 //@   requires s != nil && wfSessions(s)
 //@   modifies s.known, ghost.gauge
 //@   ensures wfSessions(s)
-//@   ensures[C07,C08,C09] has(s.known, h.SessionID) && s.known[h.SessionID].header == h && s.known[h.SessionID].Handler == n
-//@   ensures[C07,C08,C09] sameExcept(s.known, h.SessionID)
+//@   ensures[C07,C08,C09,C20] has(s.known, h.SessionID) && s.known[h.SessionID].header == h && s.known[h.SessionID].Handler == n
+//@   ensures[C07,C08,C09,C20] sameExcept(s.known, h.SessionID)
 //@   ensures[C20] !old(has(s.known, h.SessionID)) ==> ghost.gauge[sessionsActive] - len(s.known) == old(ghost.gauge[sessionsActive] - len(s.known))
 //@   ensures[C20] ghost.gauge == upd(old(ghost.gauge), sessionsActive, ghost.gauge[sessionsActive])
 
@@ -656,16 +656,16 @@ package tacquito
 //@   requires s != nil && wfSessions(s)
 //@   modifies s.known, ghost.gauge
 //@   ensures wfSessions(s)
-//@   ensures[C07,C08,C09] old(has(s.known, h.SessionID)) ==> has(s.known, h.SessionID) && s.known[h.SessionID].header == h && s.known[h.SessionID].Handler == n
-//@   ensures[C07,C08,C09] sameExcept(s.known, h.SessionID) && len(s.known) == old(len(s.known))
+//@   ensures[C07,C08,C09,C20] old(has(s.known, h.SessionID)) ==> has(s.known, h.SessionID) && s.known[h.SessionID].header == h && s.known[h.SessionID].Handler == n
+//@   ensures[C07,C08,C09,C20] sameExcept(s.known, h.SessionID) && len(s.known) == old(len(s.known))
 //@   ensures[C20] ghost.gauge == old(ghost.gauge)
 
 //@ func (s *sessions) delete(session SessionID)
 //@   requires s != nil && wfSessions(s)
 //@   modifies s.known, ghost.gauge
 //@   ensures wfSessions(s)
-//@   ensures[C07,C08,C09] !has(s.known, session)
-//@   ensures[C07,C08,C09] sameExcept(s.known, session)
+//@   ensures[C07,C08,C09,C20] !has(s.known, session)
+//@   ensures[C07,C08,C09,C20] sameExcept(s.known, session)
 //@   ensures[C20] ghost.gauge[sessionsActive] - len(s.known) == old(ghost.gauge[sessionsActive] - len(s.known))
 //@   ensures[C20] ghost.gauge == upd(old(ghost.gauge), sessionsActive, ghost.gauge[sessionsActive])
 
